@@ -110,6 +110,22 @@ Theorem split_column_tiles :
 Proof. exact split_column_tiles_. Qed.
 Print Assumptions split_column_tiles.
 
+(** a composition: split_column of a strictly convex quadrilateral, then triangulate_column of the
+    shrunk column (the half that keeps the name).  [split_new_centre] is that column's centre after
+    split_column as the current source sets it (recomputed centroid iff the assignment is
+    unconditional -- read from the AST); the triangles about it tile the half, whatever the
+    quadrilateral's centre [c_old] was (specified or not) *)
+Theorem split_then_triangulate_tiles :
+  forall (cs : list pt) (c_old : pt) i0, length cs = 4 -> i0 < 4 -> convex_ccw cs ->
+  let kept := split_kept cs c_old i0 in
+  let c' := split_new_centre c_old kept in
+  length kept = 3 /\ convex_ccw kept /\ interior kept c' /\
+  forall p, zsum (child_wns kept c' 0 (fan 3) p) = wn kept p /\
+            (wn kept p = 1%Z -> exactly_one (child_wns kept c' 0 (fan 3) p)) /\
+            (wn kept p = 0%Z -> forall j, nth j (child_wns kept c' 0 (fan 3) p) 0%Z = 0%Z).
+Proof. exact split_then_triangulate_tiles_. Qed.
+Print Assumptions split_then_triangulate_tiles.
+
 (** triangulate_column: ANY number of nodes; the triangles about a centre node with every side
     of the column strictly on its left tile the column *)
 Theorem triangulate_fan_tiles :
